@@ -162,7 +162,8 @@ example : (batchExport 2 [1, 2, 3, 4, 5]).map (·.map (·.items)) = some [[1, 2]
   simp only [batchExport, Nat.zero_lt_two, dite_true, Option.map_some]
   rw [batchLoop.eq_1]; rw [batchLoop.eq_1]; rw [batchLoop.eq_1]; rw [batchLoop.eq_1]; simp
 
-/-- batch size 0 is outside the property (the Go loop would not terminate); the model says so -/
+/-- batch size 0 is refused (since fix e7cdf1b with an error; before it the call panicked — `C14IO.batch_all_sizes`
+covers every `int` size); the model says so -/
 theorem batch_size_zero {α : Type} (chunks : List α) : batchExport 0 chunks = none := by
   simp [batchExport]
 
